@@ -95,6 +95,7 @@ def _write_cog(
     ovr_blocksize: Optional[int] = None,
     use_windowed_writes: bool = False,
     intermediate_compression: Union[bool, str, Dict[str, Any]] = False,
+    yaxis: Optional[int] = None,
     **extra_rio_opts,
 ) -> Union[Path, bytes]:
     if blocksize is None:
@@ -111,7 +112,10 @@ def _write_cog(
         nbands = 1
         band = 1  # type: Any
     elif pix.ndim == 3:
-        if pix.shape[:2] == geobox.shape:
+        # yaxis: position of Y when the caller knows it (xarray dims),
+        # otherwise guess from the shape (band-last wins for cube shapes)
+        band_last = (pix.shape[:2] == geobox.shape) if yaxis is None else (yaxis == 0)
+        if band_last:
             pix = pix.transpose([2, 0, 1])
         elif pix.shape[-2:] != geobox.shape:
             raise ValueError("GeoBox shape does not match image shape")
@@ -299,6 +303,7 @@ def write_cog(
         overview_levels=overview_levels,
         use_windowed_writes=use_windowed_writes,
         intermediate_compression=intermediate_compression,
+        yaxis=geo_im.odc.ydim,
         **extra_rio_opts,
     )
 
@@ -430,6 +435,7 @@ def write_cog_layers(
                 img.odc.geobox,
                 m.name,
                 overview_levels=[],
+                yaxis=img.odc.ydim,
                 **first_pass_cfg,
             )
 
